@@ -155,9 +155,23 @@ def hUnmRe : Handler := fun r =>
 def execVany (args : List String) : String :=
   match args with
   | [s] => match parseGoVal s with
-    | some g => printValue (ofAny g)
+    | some g => printValue (ofAny g) ++ " any=" ++ printGoVal (toAny (ofAny g))
     | none => "bad-op"
   | _ => "bad-op"
+
+/-- the property on the implementation's answer (`C06_any_reflect_agrees`, `C06_any_wrap_unwrap`): `proto.Any` returned what
+the typed constructor returns for the value seen by kind, and unwrapping gives the content back as the unnamed type of its
+kind; `n/a` for a float32 signalling NaN through reflection (guard `noSNaN32`) -/
+def propVany (args : List String) (impl : String) : String :=
+  match args with
+  | [s] => match parseGoVal s with
+    | some g =>
+      if !noSNaN32 g then "n/a"
+      else if impl == printValue (ofAnyDirect (underlying g)) ++ " any=" ++ printGoVal (expectAny g) then "ok"
+      else if !impl.startsWith (printValue (ofAnyDirect (underlying g)) ++ " ") then "fail:wrapped-value-differs-from-typed-constructor-of-the-kind"
+      else "fail:unwrapped-value-differs"
+    | none => "n/a"
+  | _ => "n/a"
 
 def execUtf8 (args : List String) : String :=
   match args with
@@ -170,7 +184,12 @@ def execUtf8 (args : List String) : String :=
   | _ => "bad-op"
 
 def hUnm : Handler := modelOnly execUnm
-def hVany : Handler := modelOnly execVany
+def hVany : Handler := fun r =>
+  match r.mode with
+  | .model => execVany r.args
+  | .spec => "n/a"
+  | .prop => propVany r.args r.impl
+  | .kf => "-"
 def hUtf8 : Handler := modelOnly execUtf8
 
 end Drv
